@@ -221,13 +221,9 @@ class multiline_conditional_alignment(alignment.Rule):
         lTokens = oViolation.get_tokens()
         dAction = oViolation.get_action()
         if dAction["type"] == "when":
-            iSpace = len(lTokens[0].get_value())
-            iNewSpace = iSpace + dAction["adjust"]
-            lTokens[0].set_value(" " * iNewSpace)
+            _adjust_whitespace_before_keyword(lTokens, dAction["adjust"])
         elif dAction["type"] == "else":
-            iSpace = len(lTokens[0].get_value())
-            iNewSpace = iSpace + dAction["adjust"]
-            lTokens[0].set_value(" " * iNewSpace)
+            _adjust_whitespace_before_keyword(lTokens, dAction["adjust"])
         elif dAction["type"] == "indent":
             if dAction["action"] == "adjust":
                 lTokens[0].set_value(dAction["column"])
@@ -235,6 +231,15 @@ class multiline_conditional_alignment(alignment.Rule):
                 rules_utils.insert_new_whitespace(lTokens, 0, dAction["column"])
 
         oViolation.set_tokens(lTokens)
+
+
+def _adjust_whitespace_before_keyword(lTokens, iAdjust):
+    if isinstance(lTokens[0], parser.whitespace):
+        iSpace = len(lTokens[0].get_value())
+        iNewSpace = iSpace + iAdjust
+        lTokens[0].set_value(" " * iNewSpace)
+    elif iAdjust > 0:
+        rules_utils.insert_new_whitespace(lTokens, 1, " " * iAdjust)
 
 
 def _find_first_column(oFile, oToi, sAlignLeft, iIndentSize, iIndentStep):
